@@ -9,6 +9,15 @@ props = [json.loads(l) for l in open(os.path.join(HERE, "properties.jsonl"))]
 
 T_DIFF = "runtime monitoring: differential execution against an exact reference model"
 CHECKS = {
+    "C10": dict(text="seeded assume/negate/pop histories over IDL and RDL networks (incl. growth beyond the initial matrix size, repeated pairs, clauses over constraint literals) on Debug and Release builds; after every step the whole distance matrix is compared with an independent exact all-pairs closure of the currently assigned constraints, refutations are compared with negative-cycle existence, and every learnt clause / theory conflict seen through the hooks is validated (closure or z3)",
+                note="trusts the harness's Floyd-Warshall over (rational, eps) pairs and z3 (only for cases with propositional clauses); RDL constraints use eps in {0,-1}",
+                technique="runtime monitoring: state observation after every API call vs exact shortest-path model; hook-level validation of explanations"),
+    "C12": dict(text="generated relation requests (5 relations x 1/2 variables x sign/magnitude of c x side distribution x integer/rational k x IDL/RDL) on random consistent networks; constants are judged against the exact closure, literals by assuming them and their negation and comparing the full distance matrix with closure(network + relation); bounds/distance/equates compared with closure intervals",
+                note="trusts the harness's closure; IDL requests with non-integer normalised bound may be rejected; IDL's finite infinity sentinel is not judged when scaled",
+                technique="runtime monitoring: differential execution against an exact shortest-path reference model"),
+    "C14": dict(text="object variables with singleton/identical/nested/disjoint/overlapping domains and repeated equality requests; either all models are enumerated through sat_core::check and compared with set semantics (exactly one value, eq iff same value, all value combinations accepted), or assume/pop histories are run with value() compared after every step with the allows() literals and with the brute-forced set of still possible values",
+                note="trusts the harness's brute-force semantics; variables use the default enforce_exct_one=true",
+                technique="runtime monitoring: exhaustive model enumeration per generated instance + history checking against a set-semantics model"),
     "C13": dict(text="random instances of reified constructs are built on the real sat_core; for each instance ALL models of the network are enumerated through the public API (sat_core::check) and compared with the truth table of the formula, so each instance is decided exhaustively while the space of instances is sampled",
                 note="trusts the harness's truth tables and the enumeration through sat_core::check; instances have at most ~20 propositional variables",
                 technique="runtime monitoring: exhaustive model enumeration per generated instance vs truth table"),
